@@ -15,9 +15,9 @@ for c in $CHECKS; do
   (cd /verif && VERIF_REPO=$WT ./check $c quick 2>&1 | grep -v KNOWN-FINDING | cut -c1-160 | head -4; echo "check-exit=${PIPESTATUS[0]}")
   python3 - $c <<'PY'
 import json,glob,sys
-for f in sorted(glob.glob('/verif/replays/%s_20260930_*.json' % sys.argv[1]))[:3]:
+for f in sorted(glob.glob('/verif/replays/%s_2026*_*.json' % sys.argv[1]))[:3]:
     r=json.load(open(f)); print('     ', r.get('clause'), r.get('info'), r.get('kind'), str(r.get('proof_errors',''))[:200])
 PY
-  rm -f /verif/replays/${c}_20260930_*
+  rm -f /verif/replays/${c}_2026*_*
 done
 git checkout -q -- .
